@@ -1729,3 +1729,13 @@ E('C16', 'add-update-in-place', FIL, '''        self._editlist.append(lambda dat
             return data
         self._editlist.append(_edit)
 ''')
+
+# ---- C06 R06.9 (saved expiry = pending timer only; seed C06-1 = fix 369ed13 reverted)
+V('C06', 'fired-handle-kept', FSM, '''        # if the timed event gets rejected, the FSM remains in the state without a timer
+        self._active_timer = None
+        self.event(timed_event)''', '''        self.event(timed_event)''', 'R06.9')
+V('C06', 'fired-handle-cleared-after-delivery', FSM, '''        self._active_timer = None
+        self.event(timed_event)''', '''        try:
+            self.event(timed_event)
+        finally:
+            self._active_timer = None''', 'R06.9')
